@@ -1137,7 +1137,8 @@ func (app *App) init() *App {
 func (app *App) ErrorHandler(ctx Ctx, err error) error {
 	var (
 		mountedErrHandler ErrorHandler
-		mountedPrefixLen  int
+		mountedPrefix     string
+		mountedRank       int
 	)
 
 	path := ctx.Path()
@@ -1145,20 +1146,26 @@ func (app *App) ErrorHandler(ctx Ctx, err error) error {
 		if prefix == "" || subApp.configured.ErrorHandler == nil {
 			continue
 		}
+		parser := app.mountFields.appListParsers[prefix]
 		// The router serves an app mounted at "api" under "/api".
 		if prefix[0] != '/' {
 			prefix = "/" + prefix
 		}
-		if !hasMountPrefix(path, prefix, app.config.CaseSensitive) {
+		// Rank of a prefix that contains the path: twice the number of path bytes it accounts for,
+		// plus one if it is literal (more specific than a pattern that reaches equally far).
+		rank := 2*len(prefix) + 1
+		if parser != nil {
+			// The router serves an app mounted at "/:tenant" under "/acme".
+			rank = 2 * parser.mountPrefixLen(ctx.getDetectionPath(), path)
+		} else if !hasMountPrefix(path, prefix, app.config.CaseSensitive) {
 			continue
 		}
-		// Every candidate is a prefix of the same path, so two different candidates differ in
-		// length (or in letter case only, which case-insensitive routing cannot tell apart
-		// either): the longest one is the innermost mounted app, in whatever order the map is
-		// iterated.
-		if len(prefix) > mountedPrefixLen {
+		// A nested mount accounts for more of the path than the mounts around it, so the highest
+		// rank is the innermost mounted app. Overlapping siblings of equal rank are told apart by
+		// their prefixes, so the choice never depends on the order in which the map is iterated.
+		if rank > mountedRank || (rank == mountedRank && prefix < mountedPrefix) {
 			mountedErrHandler = subApp.config.ErrorHandler
-			mountedPrefixLen = len(prefix)
+			mountedPrefix, mountedRank = prefix, rank
 		}
 	}
 
